@@ -82,9 +82,11 @@ def _kleene(M, step, n, what, cap=20000):
 
 
 def _close(M, a, b):
+    """stop criterion of a float Kleene iteration: purely *relative* (values such as prefix
+    weights of 1e-20 are legitimate and must be converged too), i.e. within ~2 ulp"""
     if isinstance(a, tuple):
-        return all(abs(p - q) <= 1e-17 + 1e-16 * abs(q) for p, q in zip(a, b))
-    return abs(a - b) <= 1e-17 + 1e-16 * abs(b)
+        return all(p == q or abs(p - q) <= 4e-16 * abs(q) for p, q in zip(a, b))
+    return a == b or abs(a - b) <= 4e-16 * abs(b)
 
 
 def null(G):
